@@ -113,6 +113,15 @@ ClosureCases ==
                    SPrint(Call(Idx(Id("fs"), Num(0)), <<>>)), SPrint(Call(Idx(Id("fs"), Num(2)), <<>>)), SPrint(Call(Idx(Id("fs"), Num(0)), <<>>)), SPrint(Call(Idx(Id("fs"), Num(1)), <<>>)),
                    SFun("viaIf", <<>>, << SIf(Num(1), SBlock(<< SPrint(Call(Idx(Id("fs"), Num(2)), <<>>)) >>), None) >>), SExpr(Call(Id("viaIf"), <<>>)) >>,
           c |-> "closure:declared-deeper-than-captured", key |-> "closure:declared-deeper-than-captured"],
+         \* closures made in a loop body, kept in an array, called from the top level; their bodies open blocks of their own
+         [t |-> << SVar("jobs", Arr(<<>>)),
+                   SFor(SVar("st", Num(1)), Bin("<=", Id("st"), Num(3)), Asg("st", Bin("+", Id("st"), Num(1))),
+                        SBlock(<< SVar("mult", Bin("*", Id("st"), Num(10))),
+                                  SFun("job", <<"v">>, << SIf(Bin(">", Id("v"), Num(0)), SBlock(<< SReturn(Bin("*", Id("v"), Id("mult"))) >>), None), SReturn(Num(0)) >>),
+                                  SExpr(Asg("jobs", Call(Id("push"), <<Id("jobs"), Id("job")>>))) >>)),
+                   SPrint(Call(Id("len"), <<Id("jobs")>>)), SPrint(Call(Idx(Id("jobs"), Num(0)), <<Num(0)>>)), SPrint(Call(Idx(Id("jobs"), Num(0)), <<Num(2)>>)), SPrint(Call(Idx(Id("jobs"), Num(2)), <<Num(2)>>)),
+                   SBlock(<< SPrint(Call(Idx(Id("jobs"), Num(1)), <<Num(3)>>)) >>), SPrint(Call(Idx(Id("jobs"), Num(1)), <<Call(Id("abs"), <<Un("-", Num(4))>>)>>)) >>,
+          c |-> "closure:loop-made-with-own-blocks", key |-> "closure:loop-made-with-own-blocks"],
          \* a bare return after valued returns have happened; thousands of calls that end through return
          [t |-> << SFun("val", <<"x">>, <<SReturn(Bin("+", Id("x"), Num(1)))>>),
                    SFun("find", <<"a", "x">>, << SFor(SVar("i", Num(0)), Bin("<", Id("i"), Call(Id("len"), <<Id("a")>>)), Asg("i", Bin("+", Id("i"), Num(1))),
